@@ -139,6 +139,89 @@ def fam_lengths(seed, maxlen, tag="len"):
     return out
 
 
+LONG_LENS = (33, 40, 64, 100, 127, 128, 129, 160, 200, 256, 257, 300)
+LONG_BAD = (0x7f, 0x00, 0x1f, 0x08, 0x0b, 0xff)
+BODY_PAD = b"0123456789abcdefghijklmnopqrstuvwxyzABCDEFGHIJKLMNOPQRSTUVWXYZ0123456789"
+
+
+def fam_long(seed, kinds=("q", "p", "h"), tag="long"):
+    """long targets / names / values / reasons (multi-block and unrolled scanner paths) with one
+       out-of-class byte at block-boundary positions, followed by a body long enough to keep every
+       SIMD path engaged"""
+    r = Rng(seed).fork(tag)
+    out = []
+    i = 0
+    for n in LONG_LENS:
+        poss = sorted(set(p for p in (0, 1, 7, 8, 15, 16, 17, 31, 32, 33, 63, 64, 65, 95, 96, 127, 128, 129, 191, 192,
+                                      255, 256, n - 2, n - 1, n // 2, r.below(n), r.below(n)) if 0 <= p < n))
+        for pos in poss:
+            for bad in LONG_BAD + (None,):
+                def put(body):
+                    b = bytearray(body)
+                    if bad is not None:
+                        b[pos] = bad
+                    return bytes(b)
+                if bad is None and pos != poss[0]:
+                    continue
+                tg = put(b"/" + bytes(97 + (k % 26) for k in range(n - 1)))
+                nm = put(bytes(65 + (k % 26) for k in range(n)))
+                vl = put(bytes(97 + (k % 26) if k % 9 else 9 for k in range(n)))
+                cases = []
+                if "q" in kinds:
+                    cases.append(("q", b"GET " + tg + b" HTTP/1.1\r\nHost: a\r\n\r\n" + BODY_PAD))
+                    cases.append(("q", b"GET / HTTP/1.1\r\nA: " + vl + b"\r\nB: c\r\n\r\n" + BODY_PAD))
+                if "h" in kinds:
+                    cases.append(("h", nm + b": v\r\nX-Y: z\r\n\r\n" + BODY_PAD))
+                    cases.append(("h", b"N:" + vl + b"\r\n\r\n" + BODY_PAD))
+                if "p" in kinds:
+                    cases.append(("p", b"HTTP/1.1 200 " + vl + b"\r\nA: b\r\n\r\n" + BODY_PAD))
+                    cases.append(("p", b"HTTP/1.0 404 NF\r\n" + nm + b":" + vl + b"\r\n\r\n" + BODY_PAD))
+                for kind, b in cases:
+                    out.append(api("%s.%d.%d.%s.%d" % (tag, n, pos, "ok" if bad is None else "%02x" % bad, i), kind, b, r, i,
+                                   cfg=0 if i % 3 else None, cap=4))
+                    i += 1
+    return out
+
+
+PAIR_ALPHA = bytes([0x00, 0x01, 0x08, 0x09, 0x0a, 0x0b, 0x0c, 0x0d, 0x1f, 0x20, 0x21, 0x22, 0x3a, 0x40, 0x5b, 0x60,
+                    0x7b, 0x7e, 0x7f, 0x80, 0x9f, 0xa0, 0xc0, 0xff])
+
+
+def fam_pairs(seed, kinds=("q", "p", "h"), quick=True, tag="pair"):
+    """two adjacent boundary bytes inside a target / header value, at different phases of the
+       word-at-a-time and SIMD blocks and with different amounts of input left after them"""
+    r = Rng(seed).fork(tag)
+    out = []
+    i = 0
+    pres = (0, 3, 6, 7) if quick else (0, 1, 2, 3, 4, 5, 6, 7)
+    sufs = (2, 13, 40) if quick else (1, 2, 5, 13, 26, 40, 70)
+    for v1 in PAIR_ALPHA:
+        for v2 in PAIR_ALPHA:
+            for pre in pres:
+                suf = sufs[(i + pre) % len(sufs)]
+                mid = b"v" * pre + bytes([v1, v2]) + b"w" * suf
+                if "h" in kinds:
+                    out.append(api("%s.h.%02x%02x.%d.%d" % (tag, v1, v2, pre, suf), "h", b"N: " + mid + b"\r\n\r\n", r, i, cap=2))
+                if "q" in kinds and (i % 2 == 0 or not quick):
+                    out.append(api("%s.q.%02x%02x.%d.%d" % (tag, v1, v2, pre, suf), "q",
+                                   b"GET /" + mid + b" HTTP/1.1\r\n\r\n", r, i, cfg=0, cap=2))
+                if "p" in kinds and (i % 2 == 1 or not quick):
+                    out.append(api("%s.p.%02x%02x.%d.%d" % (tag, v1, v2, pre, suf), "p",
+                                   b"HTTP/1.1 200 OK\r\nName: " + mid + b"\r\n\r\n", r, i, cap=2))
+                i += 1
+    return out
+
+
+def padded(cases, stride=3, tag="pad"):
+    """a sample of single-call cases with a body appended (the SIMD scanners only engage while at
+       least 16 / 32 bytes remain, so a head that ends the buffer never reaches them)"""
+    out = []
+    for j, c in enumerate(cases):
+        if c[0] == "A" and j % stride == 0:
+            out.append((c[0], tag + "." + c[1]) + tuple(c[2:6]) + (c[6] + BODY_PAD,))
+    return out
+
+
 def fam_codes(tag="code"):
     out = []
     for c in range(1000):
